@@ -397,6 +397,7 @@ func (t *Template) parseBlock() Node {
 	const context = "block clause"
 	var pipe Expression
 
+	line := t.lex.lineNumber()
 	name := t.expect(itemIdentifier, context, "name")
 	bplist := t.blockParametersList(true, context)
 
@@ -413,7 +414,7 @@ func (t *Template) parseBlock() Node {
 		contentList, end = t.itemList(nodeEnd)
 	}
 
-	block := t.newBlock(name.pos, t.lex.lineNumber(), name.val, bplist, pipe, list, contentList)
+	block := t.newBlock(name.pos, line, name.val, bplist, pipe, list, contentList)
 	t.passedBlocks[block.Name] = block
 	return block
 }
@@ -428,6 +429,8 @@ func (t *Template) parseYield() Node {
 		content *ListNode
 	)
 
+	line := t.lex.lineNumber()
+
 	// parse block name
 	name = t.nextNonSpace()
 	if name.typ == itemContent {
@@ -436,7 +439,7 @@ func (t *Template) parseYield() Node {
 			pipe = t.expression(context, "content context")
 		}
 		t.expectRightDelim(context)
-		return t.newYield(name.pos, t.lex.lineNumber(), "", nil, pipe, nil, true)
+		return t.newYield(name.pos, line, "", nil, pipe, nil, true)
 	} else if name.typ != itemIdentifier {
 		t.unexpected(name, context, "block name")
 	}
@@ -466,7 +469,7 @@ func (t *Template) parseYield() Node {
 		}
 	}
 
-	return t.newYield(name.pos, t.lex.lineNumber(), name.val, bplist, pipe, content, false)
+	return t.newYield(name.pos, line, name.val, bplist, pipe, content, false)
 }
 
 func (t *Template) parseInclude() Node {
